@@ -1,6 +1,6 @@
 (** C13 correspondence entries. *)
 From Coq Require Import String.
-From BV Require Import Base.Prelude Base.Codec gen.C13EscapeTables Quote.Quote Quote.Reader Quote.AnsiC.
+From BV Require Import Base.Prelude Base.Codec gen.C13EscapeTables Quote.Quote Quote.Reader Quote.AnsiC Quote.Decl.
 
 (** args: <mode> <s>; mode = two letters: f|n (force / if needed) then s|d|b.
     Uses the regenerated flag [positional_escaping]. *)
@@ -38,4 +38,23 @@ Definition entry_c13_decode (a : list str) : list str :=
   | DOk b => [lit "O"; hex_of_bytes b]
   | DErr => [lit "E"]
   | DUnsupported => [lit "U"]
+  end.
+
+(** args: <kind i|h> (key value)* -> the DeclarePrint text of the array (regenerated flag) *)
+Fixpoint pairs (l : list str) : list (str * str) :=
+  match l with k :: v :: r => (k, v) :: pairs r | _ => [] end.
+Definition entry_c13_fmt (a : list str) : list str :=
+  match a with
+  | [k] :: r => if N.eqb k 105 then [fmt_indexed positional_escaping (pairs r)]
+                else [fmt_assoc positional_escaping (pairs r)]
+  | _ => [lit "?args"]
+  end.
+(** args: <text> -> S k v k v ... | N   (the compound-assignment reader specification) *)
+Definition entry_c13_readc (a : list str) : list str :=
+  match a with
+  | s :: _ => match read_compound s with
+              | Some kvs => lit "S" :: flat_map (fun kv => [fst kv; snd kv]) kvs
+              | None => [lit "N"]
+              end
+  | [] => [lit "N"]
   end.
